@@ -111,7 +111,7 @@ def equivalent(a, b):
         try:
             if ev(a, env) != ev(b, env):
                 return False
-        except KeyError:
+        except (KeyError, TypeError):      # a name of one side only, or an operator with a missing operand
             return False
     return True
 
@@ -292,6 +292,15 @@ def documents(ctx, with_model=False):
         if "constraints" in d and not d["constraints"] and rng.random() < 0.5:
             d.pop("constraints")          # a missing section means no constraints
         yield ("third-party", d, m) if with_model else ("third-party", d)
+        # the 'optional' entries as values that are not JSON booleans: the reader takes their truth value
+        # (`if optional:`); compared with the model only
+        d = copy.deepcopy(doc)
+        for f in d["features"].values():
+            if "optional" in f and rng.random() < 0.6:
+                f["optional"] = rng.choice([1, 2, "yes", "false", [0], {"k": 0}, 0.5] if f["optional"]
+                                           else [0, "", [], {}, None, 0.0])
+        g.count("glencoe_truthy_flags")
+        yield ("truthy-flags", d, m) if with_model else ("truthy-flags", d)
         # a group most of whose members are mandatory: exactly one optional member left, or none at all
         d = copy.deepcopy(doc)
         groups = []
